@@ -134,6 +134,58 @@ theorem CHECK_C_fails_iff_value (c : Int) (h : InRange tyInt c) : (CHECK_C c).fa
 /-- `FAIL` always fails -/
 theorem fail_always_fails : fail.fails = true ∧ FAIL.fails = true ∧ FAIL_C.fails = true := ⟨rfl, rfl, rfl⟩
 
+/-! ### the boolean macros on a compound condition (`CHECK(a || b)`, `CHECK_FALSE(a == b)`, `CHECK_C(a ? b : 0)` …) -/
+
+theorem CondOp.truth_or (a b : Int) : CondOp.or.truth a b = (a != 0 || b != 0) := by
+  simp only [CondOp.truth, CondOp.value]; split <;> simp_all
+theorem CondOp.truth_and (a b : Int) : CondOp.and.truth a b = (a != 0 && b != 0) := by
+  simp only [CondOp.truth, CondOp.value]; split <;> simp_all
+theorem CondOp.truth_eq (a b : Int) : CondOp.eq.truth a b = RelOp.holds .eq a b := by
+  simp only [CondOp.truth, CondOp.value]; split <;> simp_all
+theorem CondOp.truth_ne (a b : Int) : CondOp.ne.truth a b = RelOp.holds .ne a b := by
+  simp only [CondOp.truth, CondOp.value]; split <;> simp_all
+theorem CondOp.truth_lt (a b : Int) : CondOp.lt.truth a b = RelOp.holds .lt a b := by
+  simp only [CondOp.truth, CondOp.value]; split <;> simp_all
+theorem CondOp.truth_cond (a b : Int) : CondOp.cond.truth a b = (a != 0 && b != 0) := by
+  simp only [CondOp.truth, CondOp.value]; split <;> simp_all
+
+/-- the value of the whole expression, converted to `bool`, is the truth of the predicate the condition names -/
+theorem CondOp.truth_iff (op : CondOp) (a b : Int) : op.truth a b = true ↔ op.Holds a b := by
+  cases op <;> simp only [CondOp.truth, CondOp.value, CondOp.Holds, RelOp.holds] <;> (repeat' split) <;> simp_all
+
+theorem CondOp.value_inRange (op : CondOp) (a b : Int) (hb : InRange tyInt b) : InRange tyInt (op.value a b) := by
+  have h0 : InRange tyInt 0 := by decide
+  have h1 : InRange tyInt 1 := by decide
+  cases op <;> simp only [CondOp.value] <;> split <;> assumption
+
+/-- the boolean check macros on a compound condition over two `int` operands: each fails exactly when the predicate the
+    WHOLE condition names is false (`CHECK_FALSE`: true), and counts one check -/
+theorem compound_condition_checks (op : CondOp) (a b : Int) (hb : InRange tyInt b) :
+    ((CHECK (op.truth a b)).fails = true ↔ ¬ op.Holds a b) ∧ (CHECK (op.truth a b)).counted = 1 ∧
+    ((CHECK_FALSE (op.truth a b)).fails = true ↔ op.Holds a b) ∧ (CHECK_FALSE (op.truth a b)).counted = 1 ∧
+    ((CHECK_C (op.value a b)).fails = true ↔ ¬ op.Holds a b) ∧ (CHECK_C (op.value a b)).counted = 1 := by
+  refine ⟨?_, rfl, ?_, rfl, ?_, rfl⟩
+  · rw [CHECK_fails_iff, ← CondOp.truth_iff]; simp
+  · rw [CHECK_FALSE_fails_iff, CondOp.truth_iff]
+  · rw [CHECK_C_fails_iff_value _ (CondOp.value_inRange op a b hb), ← CondOp.truth_iff]
+    simp [CondOp.truth]
+
+/-- what the driver replays for a `boolx` op: one check, failing iff the whole condition is false (`CHECK_FALSE`: true) -/
+theorem boolxMacro_verdict (m : String) (op : CondOp) (a b : Int) (hb : InRange tyInt b) (o : Outcome)
+    (h : boolxMacro m op a b = some o) :
+    o.counted = 1 ∧ (o.fails = true ↔ if m = "CHECK_FALSE" then op.Holds a b else ¬ op.Holds a b) := by
+  have hc := compound_condition_checks op a b hb
+  unfold boolxMacro at h
+  split at h <;> simp at h <;> subst h <;> simp [hc]
+
+/-- non-vacuity: `CHECK_FALSE(0 || 1)` fails, `CHECK_FALSE(1 == 2)` and `CHECK_FALSE(1 && 0)` pass (the conditions on
+    which `!a OP b` differs from `!(a OP b)`), `CHECK(3 < 5)` passes, `CHECK_C(1 ? 0 : 0)` fails -/
+example : (CHECK_FALSE (CondOp.or.truth 0 1)).fails = true ∧ (CHECK_FALSE (CondOp.eq.truth 1 2)).fails = false ∧
+    (CHECK_FALSE (CondOp.and.truth 1 0)).fails = false ∧ (CHECK (CondOp.lt.truth 3 5)).fails = false ∧
+    (CHECK_C (CondOp.cond.value 1 0)).fails = true ∧ CondOp.or.Holds 0 1 ∧ ¬ CondOp.eq.Holds 1 2 ∧
+    boolxMacro "CHECK_FALSE" .or 0 1 = some { fails := true, counted := 1 } ∧ InRange tyInt 1 :=
+  ⟨by decide, by decide, by decide, by decide, by decide, by simp [CondOp.Holds], by simp [CondOp.Holds], by decide, by decide⟩
+
 /-! ## 3. integers: the assert functions at their declared parameter types -/
 
 theorem assertLongsEqual_fails_iff (e a : BitVec 64) :
@@ -1259,6 +1311,28 @@ theorem gen_macro_CHECK_FALSE :
     (∀ (a : BitVec 32), Gen.AssertMacros.M_CHECK_FALSE_TEXT_i32 a = CHECK_FALSE ((valueAt true a) != 0)) := by
   refine ⟨?_, ?_, ?_, ?_, ?_, ?_, ?_, ?_, ?_⟩ <;> intros <;>
     psimp [Gen.AssertMacros.M_CHECK_FALSE_i8, Gen.AssertMacros.M_CHECK_FALSE_u8, Gen.AssertMacros.M_CHECK_FALSE_i16, Gen.AssertMacros.M_CHECK_FALSE_u16, Gen.AssertMacros.M_CHECK_FALSE_i32, Gen.AssertMacros.M_CHECK_FALSE_u32, Gen.AssertMacros.M_CHECK_FALSE_i64, Gen.AssertMacros.M_CHECK_FALSE_u64, Gen.AssertMacros.M_CHECK_FALSE_TEXT_i32]
+
+/-- the regenerated expansions of CHECK / CHECK_TRUE / CHECK_FALSE (and `_TEXT`) applied to a COMPOUND argument
+    (`e || a`, `e && a`, `e == a`, `e < a`): the macro's own operators (`!`, the `(bool)` cast) apply to the whole argument -
+    the substitution of the macro parameter is parenthesised -/
+theorem gen_macro_compound_conditions :
+    (∀ (e a : BitVec 32), Gen.AssertMacros.M_CHECK_or_i32 e a = CHECK (CondOp.or.truth (valueAt true e) (valueAt true a))) ∧
+    (∀ (e a : BitVec 32), Gen.AssertMacros.M_CHECK_and_i32 e a = CHECK (CondOp.and.truth (valueAt true e) (valueAt true a))) ∧
+    (∀ (e a : BitVec 32), Gen.AssertMacros.M_CHECK_eq_i32 e a = CHECK (CondOp.eq.truth (valueAt true e) (valueAt true a))) ∧
+    (∀ (e a : BitVec 32), Gen.AssertMacros.M_CHECK_lt_i32 e a = CHECK (CondOp.lt.truth (valueAt true e) (valueAt true a))) ∧
+    (∀ (e a : BitVec 32), Gen.AssertMacros.M_CHECK_TEXT_or_i32 e a = CHECK (CondOp.or.truth (valueAt true e) (valueAt true a))) ∧
+    (∀ (e a : BitVec 32), Gen.AssertMacros.M_CHECK_TRUE_or_i32 e a = CHECK (CondOp.or.truth (valueAt true e) (valueAt true a))) ∧
+    (∀ (e a : BitVec 32), Gen.AssertMacros.M_CHECK_TRUE_and_i32 e a = CHECK (CondOp.and.truth (valueAt true e) (valueAt true a))) ∧
+    (∀ (e a : BitVec 32), Gen.AssertMacros.M_CHECK_TRUE_eq_i32 e a = CHECK (CondOp.eq.truth (valueAt true e) (valueAt true a))) ∧
+    (∀ (e a : BitVec 32), Gen.AssertMacros.M_CHECK_TRUE_lt_i32 e a = CHECK (CondOp.lt.truth (valueAt true e) (valueAt true a))) ∧
+    (∀ (e a : BitVec 32), Gen.AssertMacros.M_CHECK_TRUE_TEXT_or_i32 e a = CHECK (CondOp.or.truth (valueAt true e) (valueAt true a))) ∧
+    (∀ (e a : BitVec 32), Gen.AssertMacros.M_CHECK_FALSE_or_i32 e a = CHECK_FALSE (CondOp.or.truth (valueAt true e) (valueAt true a))) ∧
+    (∀ (e a : BitVec 32), Gen.AssertMacros.M_CHECK_FALSE_and_i32 e a = CHECK_FALSE (CondOp.and.truth (valueAt true e) (valueAt true a))) ∧
+    (∀ (e a : BitVec 32), Gen.AssertMacros.M_CHECK_FALSE_eq_i32 e a = CHECK_FALSE (CondOp.eq.truth (valueAt true e) (valueAt true a))) ∧
+    (∀ (e a : BitVec 32), Gen.AssertMacros.M_CHECK_FALSE_lt_i32 e a = CHECK_FALSE (CondOp.lt.truth (valueAt true e) (valueAt true a))) ∧
+    (∀ (e a : BitVec 32), Gen.AssertMacros.M_CHECK_FALSE_TEXT_or_i32 e a = CHECK_FALSE (CondOp.or.truth (valueAt true e) (valueAt true a))) := by
+  refine ⟨?_, ?_, ?_, ?_, ?_, ?_, ?_, ?_, ?_, ?_, ?_, ?_, ?_, ?_, ?_⟩ <;> intros <;>
+    simp [Gen.AssertMacros.M_CHECK_or_i32, Gen.AssertMacros.M_CHECK_and_i32, Gen.AssertMacros.M_CHECK_eq_i32, Gen.AssertMacros.M_CHECK_lt_i32, Gen.AssertMacros.M_CHECK_TEXT_or_i32, Gen.AssertMacros.M_CHECK_TRUE_or_i32, Gen.AssertMacros.M_CHECK_TRUE_and_i32, Gen.AssertMacros.M_CHECK_TRUE_eq_i32, Gen.AssertMacros.M_CHECK_TRUE_lt_i32, Gen.AssertMacros.M_CHECK_TRUE_TEXT_or_i32, Gen.AssertMacros.M_CHECK_FALSE_or_i32, Gen.AssertMacros.M_CHECK_FALSE_and_i32, Gen.AssertMacros.M_CHECK_FALSE_eq_i32, Gen.AssertMacros.M_CHECK_FALSE_lt_i32, Gen.AssertMacros.M_CHECK_FALSE_TEXT_or_i32, gen_assertTrue_eq, CHECK, CHECK_FALSE, CondOp.truth_or, CondOp.truth_and, CondOp.truth_eq, CondOp.truth_lt, valueAt, toInt_bne_zero, holds_eq_s, holds_lt_s]
 
 theorem gen_macro_CHECK_C :
     (∀ (a : BitVec 8), Gen.AssertMacros.M_CHECK_C_i8 a = CHECK_C (valueAt true a)) ∧
